@@ -112,4 +112,27 @@ def createLinks (ts : List Tok) : Except LErr (List (Option Nat)) :=
     | .error e => .error e
     | .ok st' => .ok ((List.range ts.length).map st'.link)
 
+/-! ### later link writers (every pass between `createLinks` and the dump writes links only through these) -/
+
+/-- `Token::createMutualLinks(a, b)`: `a->link(b); b->link(a);` -/
+def mutualLinks (f : Nat → Option Nat) (a b : Nat) : Nat → Option Nat :=
+  updLink (updLink f a (some b)) b (some a)
+
+/-- `a->link(nullptr)` -/
+def clearLink (f : Nat → Option Nat) (a : Nat) : Nat → Option Nat := updLink f a none
+
+inductive LinkOp where
+  | mutual (a b : Nat)
+  | clear (a : Nat)
+deriving DecidableEq, Repr
+
+def applyLinkOp (f : Nat → Option Nat) : LinkOp → Nat → Option Nat
+  | .mutual a b => mutualLinks f a b
+  | .clear a => clearLink f a
+
+/-- the link vector after every op of a sequence, starting from no links -/
+def linkTrace (f : Nat → Option Nat) : List LinkOp → List (Nat → Option Nat)
+  | [] => []
+  | o :: r => applyLinkOp f o :: linkTrace (applyLinkOp f o) r
+
 end Cppcheck.Links
